@@ -10,7 +10,8 @@ SEM_ASSUMPTIONS = [
     'A-SEM-1 (axiom atom_ignores_types, dom_ignores_types): stored type sets do not influence values',
     'A-SEM-2 (axiom ev_frame, dom_frame): a value does not depend on a variable the expression does not mention',
     'A-SEM-3 (axiom empty_test_sem): `len(d) = 0` holds exactly when the domain d has no members',
-    'assumed constructor contracts (checked natively only): HplQuantifier.__init__, HplFunctionCall.__init__',
+    'callee contract HplQuantifier.__init__: proved by the checks of C03 and C02 (not re-proved here); assumed constructor '
+    'contract (checked natively only): HplFunctionCall.__init__',
     'termination is not proved (partial correctness)',
 ]
 SEM_LEMMAS = ['atom_ignores_types', 'dom_ignores_types', 'ev_frame', 'dom_frame', 'empty_test_sem',
